@@ -181,8 +181,14 @@ func (e *Evidence) Write() {
 		"wall_s":      time.Since(e.start).Seconds(),
 		"violations":  e.violations,
 	}
-	if doc["assumptions"] == nil {
+	if e.assume == nil {
 		doc["assumptions"] = []string{}
+	}
+	if e.notes == nil {
+		cov["notes"] = []string{}
+	}
+	if e.known == nil {
+		cov["known_findings_reported"] = []string{}
 	}
 	b, _ := json.MarshalIndent(doc, "", " ")
 	dir := filepath.Join(VerifDir(), "evidence")
